@@ -445,28 +445,29 @@ class _Func:
             return self.do_def(s, st)
         raise ValueError("statement outside the C08 fragment: %s" % type(s).__name__)
 
+    def branch_states(self, test, st):
+        """(flow into the true branch, flow into the false branch) of a condition.  An outcome that no
+        evaluation of the condition can produce (it is decided by literal constants, mode "const")
+        makes that branch DEAD code: it is entered as dead flow with the environments in which the
+        condition was decided (= after everything that IS evaluated), like every never-taken edge."""
+        st_t, st_f = self.cond_states(test, st)
+        if self.mode == "const":
+            if not st_t[1] and st_f[1]:
+                st_t = (True, st_f[1])
+            elif not st_f[1] and st_t[1]:
+                st_f = (True, st_t[1])
+        return st_t, st_f
+
     def do_if(self, s, st):
-        dead, envs = st
-        c = const_cond(s.test) if self.mode == "const" else None
-        st_t, st_f = self.cond_states(s.test, st)
-        dead = st[0]
-        if c is None:
-            then_in, else_in = st_t, st_f
-        else:
-            both = frozenset(st_t[1] | st_f[1] | st[1])
-            then_in = (dead, both) if c else (True, both)
-            else_in = (True, both) if c else (dead, both)
+        then_in, else_in = self.branch_states(s.test, st)
         t = self.block(s.body, then_in)
         e = self.block(s.orelse, else_in)
         return self.join(t, e)
 
     def do_while(self, s, st):
-        c = const_cond(s.test) if self.mode == "const" else None
         head = st
         while True:
-            t_in, f_in = self.cond_states(s.test, head)
-            tested = (head[0], frozenset(t_in[1] | f_in[1])) if c is not None else t_in
-            body_in = tested if c is not False else (True, tested[1])
+            body_in, _ = self.branch_states(s.test, head)
             self.loops.append({"breaks": [], "continues": []})
             out = self.block(s.body, body_in)
             lp = self.loops.pop()
@@ -474,9 +475,7 @@ class _Func:
             if new_head == head:
                 break
             head = new_head
-        t_in, f_in = self.cond_states(s.test, head)
-        tested = (head[0], frozenset(t_in[1] | f_in[1])) if c is not None else f_in
-        exit_st = tested if c is not True else (True, tested[1])
+        _, exit_st = self.branch_states(s.test, head)
         return self.join(exit_st, *lp["breaks"])
 
     def do_for(self, s, st):
